@@ -278,10 +278,10 @@ Proof.
     replace (fp + 32768) with ((c1 + 1) * 32768) by lia. apply N.mod_mul. exact N32.
 Qed.
 
-Lemma frame_loop_safe : forall f ef ob s, FI s -> hs (fun _ s' => FI s' /\ err s' = err s) (frame_loop f ef ob) s.
+Lemma frame_pre_safe0 s : FI s ->
+  hs (fun fs x0 => fs = 32768 /\ wsize x0 = wsize s /\ wposn x0 = fposn s + 32768 /\ fposn x0 = fposn s /\ err x0 = err s) frame_pre s.
 Proof.
-  induction f as [|f IH]; intros ef ob s HI; cbn [frame_loop]; [apply hs_fail; discriminate|].
-  gt. destruct (ef <=? frame s); [apply hs_ret; split; [exact HI|reflexivity]|].
+  intro HI. unfold frame_pre. gt.
   assert (H0 : sameB s s) by apply sameB_refl.
   rdB. gt. rdB. gt. rdB.
   apply hs_hint_bnd. intros len0 Hl0. apply Hh0 in Hl0. subst len0. rdB.
@@ -309,13 +309,28 @@ Proof.
   assert (C4 : ((FRAME_SIZE <? FRAME_SIZE) || (wsize s6 <? fposn s6 + FRAME_SIZE)) = false).
   { change FRAME_SIZE with 32768. apply orb_false_iff. split; [reflexivity|]. apply N.ltb_ge. unsameB. unsameF. lia. }
   rewrite C4.
-  match goal with |- hs _ (bnd (if ?b then _ else _) _) _ => destruct b end; apply hs_put_bnd; gt; apply hs_write_bnd; apply hs_modify_bnd; apply hs_modify_bnd; (eapply hs_weaken; [apply IH|]).
-  2,4: intros r s' [P1 P2]; cbv beta; split; [exact P1|]; rewrite P2; unsameB; unsameF; (transitivity (err s6); [destruct (wposn _ =? wsize _); destruct (fposn _ =? wsize _); reflexivity|congruence]).
-  all: apply (FI_step _ (wsize s) (fposn s)); try assumption.
-  all: unsameB; unsameF.
-  all: try (match goal with |- wsize _ = _ => transitivity (wsize s6); [reflexivity|congruence] end).
-  all: try (match goal with |- wposn _ = _ => transitivity (wposn s6); [reflexivity|congruence] end).
-  all: try (match goal with |- fposn _ = _ => transitivity (fposn s6 + FRAME_SIZE); [reflexivity|change FRAME_SIZE with 32768; congruence] end).
+  assert (Q : wsize s6 = wsize s /\ wposn s6 = fposn s + 32768 /\ fposn s6 = fposn s /\ err s6 = err s) by (unsameB; unsameF; repeat split; congruence).
+  destruct Q as (Q1 & Q2 & Q3 & Q4).
+  match goal with |- hs _ (bnd (if ?b then _ else _) _) _ => destruct b end; apply hs_put_bnd; apply hs_ret; (split; [reflexivity|]);
+    (split; [transitivity (wsize s6); [reflexivity|exact Q1]|]); (split; [transitivity (wposn s6); [reflexivity|exact Q2]|]);
+    (split; [transitivity (fposn s6); [reflexivity|exact Q3]|transitivity (err s6); [reflexivity|exact Q4]]).
+Qed.
+
+Lemma frame_loop_safe : forall f ef ob s, FI s -> hs (fun _ s' => FI s' /\ err s' = err s) (frame_loop f ef ob) s.
+Proof.
+  induction f as [|f IH]; intros ef ob s HI; cbn [frame_loop]; [apply hs_fail; discriminate|].
+  gt. destruct (ef <=? frame s); [apply hs_ret; split; [exact HI|reflexivity]|].
+  eapply hs_bnd; [apply frame_pre_safe0; exact HI|]. intros fs x0 (-> & Y1 & Y2 & Y3 & Y4). cbv beta.
+  gt. apply hs_write_bnd. apply hs_modify_bnd. apply hs_modify_bnd.
+  set (X := x0 <| optr := optr x0 + N.min ob 32768 |> <| offset := offset x0 + N.min ob 32768 |> <| fposn := fposn x0 + 32768 |> <| frame := frame x0 + 1 |>).
+  destruct HI as (I1 & I2 & I3 & I4 & I5).
+  eapply hs_weaken; [apply IH|].
+  - assert (X1 : wsize X = wsize s) by (transitivity (wsize x0); [reflexivity|exact Y1]).
+    assert (X2 : wposn X = fposn s + 32768) by (transitivity (wposn x0); [reflexivity|exact Y2]).
+    assert (X3 : fposn X = fposn s + 32768) by (transitivity (fposn x0 + 32768); [reflexivity|rewrite Y3; reflexivity]).
+    unfold wrap_posns. cbv zeta. exact (FI_step X (wsize s) (fposn s) X1 X2 X3 I2 I3 I4 I5).
+  - intros r s' [P1 P2]. cbv beta. split; [exact P1|]. rewrite P2. transitivity (err x0); [|exact Y4].
+    unfold wrap_posns. cbv zeta. destruct (wposn X =? wsize X); destruct (fposn _ =? wsize _); reflexivity.
 Qed.
 
 (* one call of lzxd_decompress *)
@@ -449,13 +464,11 @@ Proof.
   pose proof (Z.div_mod d 4294967296 ltac:(lia)) as Q. assert (d = Z.of_N fs \/ d = Z.of_N fs - 4294967296)%Z by nia. unfold d in *. lia.
 Qed.
 
-Lemma frame_loop_safeL : forall f ef ob s, PREp s ob ef ->
-  hs (fun _ s' => Core s' /\ err s' = err s /\ Dd s' <= N.max (Dd s) (ef * 32768)) (frame_loop f ef ob) s.
+Lemma frame_pre_safeL s ob ef : LIp s ob ef -> frame s < ef ->
+  hs (fun fs x0 => fs = fsz (offset s) /\ wsize x0 = wsize s /\ wposn x0 = fposn s + fs /\ fposn x0 = fposn s /\ offset x0 = offset s /\
+                   frame x0 = frame s /\ err x0 = err s /\ exists o0, optr x0 = o0 /\ oend x0 = o0 + fs) frame_pre s.
 Proof.
-  induction f as [|f IH]; intros ef ob s HP; cbn [frame_loop]; [apply hs_fail; discriminate|].
-  gt. destruct (ef <=? frame s) eqn:Ef.
-  { apply hs_ret. split; [|split; [reflexivity|lia]]. destruct HP as [[_ C]|(G & _ & _ & _ & _ & _ & M)]; [exact C|exact (conj G M)]. }
-  apply N.leb_gt in Ef. destruct HP as [[C _]|HL]; [lia|].
+  intros HL Ef. unfold frame_pre. gt.
   destruct (fs_facts _ _ _ HL Ef) as (F1 & F2 & _).
   pose proof HL as (G & Ho & _). destruct G as (G1 & G2 & G3 & G4 & G5).
   assert (H0 : sameB s s) by apply sameB_refl.
@@ -483,33 +496,38 @@ Proof.
   assert (Q : wsize s6 = wsize s /\ wposn s6 = fposn s + fs /\ fposn s6 = fposn s /\ offset s6 = offset s /\ frame s6 = frame s /\ err s6 = err s)
     by (unsameB; unsameF; repeat split; congruence).
   destruct Q as (Q1 & Q2 & Q3 & Q4 & Q5 & Q6).
-  clear Hs Hs0 Hs1 Hs2 Hs3 Hs4 F4 G4' H0 C4 E1 W4 P4 Eo.
-  (* the state after the output pointers are set: only its projections matter from here on *)
-  assert (TAIL : forall x0 o0, wsize x0 = wsize s6 -> wposn x0 = wposn s6 -> fposn x0 = fposn s6 -> offset x0 = offset s6 -> frame x0 = frame s6 -> err x0 = err s6 ->
-            optr x0 = o0 -> oend x0 = o0 + fs ->
-            hs (fun _ s' => Core s' /\ err s' = err s /\ Dd s' <= N.max (Dd s) (ef * 32768))
-               (s7 <- get ;; _ <- write (obytes s7 (N.min ob fs)) ;;
-                _ <- modify (fun s => s <| optr := optr s + N.min ob fs |> <| offset := offset s + N.min ob fs |> <| fposn := fposn s + fs |> <| frame := frame s + 1 |>) ;;
-                _ <- modify (fun s => let s' := if wposn s =? wsize s then s <| wposn := 0 |> else s in if fposn s' =? wsize s' then s' <| fposn := 0 |> else s') ;;
-                frame_loop f ef (ob - N.min ob fs)) x0).
-  { intros x0 o0 Y1 Y2 Y3 Y4 Y5 Y6 Y7 Y8. gt. apply hs_write_bnd. apply hs_modify_bnd. apply hs_modify_bnd.
-    set (X := x0 <| optr := optr x0 + N.min ob fs |> <| offset := offset x0 + N.min ob fs |> <| fposn := fposn x0 + fs |> <| frame := frame x0 + 1 |>).
-    change (hs (fun _ s' => Core s' /\ err s' = err s /\ Dd s' <= N.max (Dd s) (ef * 32768)) (frame_loop f ef (ob - N.min ob fs)) (WRAP X)).
-    assert (X1 : wsize X = wsize s) by (transitivity (wsize x0); [reflexivity|congruence]).
-    assert (X2 : wposn X = fposn s + fs) by (transitivity (wposn x0); [reflexivity|congruence]).
-    assert (X3 : fposn X = fposn s + fs) by (transitivity (fposn x0 + fs); [reflexivity|congruence]).
-    assert (X4 : offset X = offset s + N.min ob fs) by (transitivity (offset x0 + N.min ob fs); [reflexivity|congruence]).
-    assert (X5 : frame X = frame s + 1) by (transitivity (frame x0 + 1); [reflexivity|congruence]).
-    assert (X8 : err X = err s) by (transitivity (err x0); [reflexivity|congruence]).
-    assert (X6 : optr X = o0 + N.min ob fs) by (transitivity (optr x0 + N.min ob fs); [reflexivity|congruence]).
-    assert (X7 : oend X = o0 + fs) by (transitivity (oend x0); [reflexivity|congruence]).
-    clearbody X.
-    destruct (PRE_step s ob ef X o0 HL Ef X1 X2 X3 X4 X5 X6 X7) as [PP DB].
-    destruct (wrap_fields X ltac:(congruence)) as (_ & _ & _ & _ & _ & W6 & _).
-    eapply hs_weaken; [apply IH; exact PP|]. intros r s' (C1 & C2 & C3). cbv beta. split; [exact C1|]. split; [congruence|lia]. }
-  match goal with |- hs _ (bnd (if ?b then _ else _) _) _ => destruct b end; apply hs_put_bnd.
-  - apply (TAIL _ 0); reflexivity.
-  - apply (TAIL _ (fposn s6)); reflexivity.
+  match goal with |- hs _ (bnd (if ?b then _ else _) _) _ => destruct b end; apply hs_put_bnd; apply hs_ret; (split; [reflexivity|]);
+    (split; [transitivity (wsize s6); [reflexivity|exact Q1]|]); (split; [transitivity (wposn s6); [reflexivity|exact Q2]|]);
+    (split; [transitivity (fposn s6); [reflexivity|exact Q3]|]); (split; [transitivity (offset s6); [reflexivity|exact Q4]|]);
+    (split; [transitivity (frame s6); [reflexivity|exact Q5]|]); (split; [transitivity (err s6); [reflexivity|exact Q6]|]).
+  - exists 0. split; reflexivity.
+  - exists (fposn s6). split; reflexivity.
+Qed.
+
+Lemma frame_loop_safeL : forall f ef ob s, PREp s ob ef ->
+  hs (fun _ s' => Core s' /\ err s' = err s /\ Dd s' <= N.max (Dd s) (ef * 32768)) (frame_loop f ef ob) s.
+Proof.
+  induction f as [|f IH]; intros ef ob s HP; cbn [frame_loop]; [apply hs_fail; discriminate|].
+  gt. destruct (ef <=? frame s) eqn:Ef.
+  { apply hs_ret. split; [|split; [reflexivity|lia]]. destruct HP as [[_ C]|(G & _ & _ & _ & _ & _ & M)]; [exact C|exact (conj G M)]. }
+  apply N.leb_gt in Ef. destruct HP as [[C _]|HL]; [lia|].
+  eapply hs_bnd; [apply (frame_pre_safeL s ob ef HL Ef)|]. intros fs x0 (-> & Y1 & Y2 & Y3 & Y4 & Y5 & Y6 & o0 & Y7 & Y8). cbv beta.
+  set (fs := fsz (offset s)) in *.
+  gt. apply hs_write_bnd. apply hs_modify_bnd. apply hs_modify_bnd.
+  set (X := x0 <| optr := optr x0 + N.min ob fs |> <| offset := offset x0 + N.min ob fs |> <| fposn := fposn x0 + fs |> <| frame := frame x0 + 1 |>).
+  change (hs (fun _ s' => Core s' /\ err s' = err s /\ Dd s' <= N.max (Dd s) (ef * 32768)) (frame_loop f ef (ob - N.min ob fs)) (WRAP X)).
+  assert (X1 : wsize X = wsize s) by (transitivity (wsize x0); [reflexivity|congruence]).
+  assert (X2 : wposn X = fposn s + fs) by (transitivity (wposn x0); [reflexivity|congruence]).
+  assert (X3 : fposn X = fposn s + fs) by (transitivity (fposn x0 + fs); [reflexivity|congruence]).
+  assert (X4 : offset X = offset s + N.min ob fs) by (transitivity (offset x0 + N.min ob fs); [reflexivity|congruence]).
+  assert (X5 : frame X = frame s + 1) by (transitivity (frame x0 + 1); [reflexivity|congruence]).
+  assert (X8 : err X = err s) by (transitivity (err x0); [reflexivity|congruence]).
+  assert (X6 : optr X = o0 + N.min ob fs) by (transitivity (optr x0 + N.min ob fs); [reflexivity|congruence]).
+  assert (X7 : oend X = o0 + fs) by (transitivity (oend x0); [reflexivity|congruence]).
+  clearbody X.
+  destruct (PRE_step s ob ef X o0 HL Ef X1 X2 X3 X4 X5 X6 X7) as [PP DB].
+  destruct (wrap_fields X ltac:(congruence)) as (_ & _ & _ & _ & _ & W6 & _).
+  eapply hs_weaken; [apply IH; exact PP|]. intros r s' (C1 & C2 & C3). cbv beta. split; [exact C1|]. split; [congruence|lia].
 Qed.
 
 Lemma ef_facts T : 0 < T -> T < 70368744177664 ->
